@@ -48,6 +48,41 @@ fn inst_substitute(input: &Tree) -> Result<Tree, String> {
     Ok(L(vec![ok(e_instance(&ins)), eval_tree(&ins, &st)]))
 }
 
+/// subst_penalty_eval: [instance, [[replacement map]..], state, uniform (0/1), weight]
+///   -> [ok substituted instance | err, evaluation at state of
+///       with_parameters(penalty_method / uniform_penalty_method (substituted), all weights = weight)]
+/// (the QUBO-driver path: the replaced variables must still be recovered after the penalty conversion)
+fn subst_penalty_eval(input: &Tree) -> Result<Tree, String> {
+    let xs = input.as_list()?;
+    let mut ins = d_instance(&xs[0])?;
+    let st = d_state(&xs[2])?;
+    let uniform = xs[3].as_u64()? == 1;
+    let w = xs[4].as_f64()?;
+    for r in xs[1].as_list()? {
+        let r = d_repl(r)?;
+        if let Err(e) = ins.substitute(r) {
+            return Ok(L(vec![err("substitute", &format!("{e:#}")), L(vec![])]));
+        }
+    }
+    let first = ok(e_instance(&ins));
+    let p = if uniform {
+        ins.uniform_penalty_method()
+    } else {
+        ins.penalty_method()
+    };
+    let p = match p {
+        Ok(p) => p,
+        Err(e) => return Ok(L(vec![first, err("penalty", &format!("{e:#}"))])),
+    };
+    let mut ps = v1::Parameters::default();
+    ps.entries = p.parameters.iter().map(|q| (q.id, w)).collect();
+    let second = match p.with_parameters(ps) {
+        Ok(i) => eval_tree(&i, &st),
+        Err(e) => err("with_parameters", &format!("{e:#}")),
+    };
+    Ok(L(vec![first, second]))
+}
+
 /// deps_orders: [instance, state, tries] -> ok [[observed iteration order of the dependency map,
 ///   evaluation]..] for every DISTINCT order seen while rebuilding the map `tries` times
 fn deps_orders(input: &Tree) -> Result<Tree, String> {
@@ -73,6 +108,7 @@ pub fn dispatch(op: &str, input: &Tree) -> Option<Result<Tree, String>> {
         "fn_substitute" => Some(fn_substitute(input)),
         "inst_substitute" => Some(inst_substitute(input)),
         "deps_orders" => Some(deps_orders(input)),
+        "subst_penalty_eval" => Some(subst_penalty_eval(input)),
         _ => None,
     }
 }
